@@ -138,7 +138,68 @@ func zoomCost(ids []ID, h, v int64) int64 {
 	return c
 }
 
+// evVolume: refinements of a million voxels and more (beyond what is shipped to TLC entry by entry):
+// a voxel together with voxels nested in it, or repeated; only the counts are recorded.
+func evVolume(t *Tracer, fn string, ids []ID, top ID, h, v int64) {
+	real := make([]string, len(ids))
+	for i, s := range ids {
+		real[i] = s.String()
+		if fn == "ChangeZoomSp" {
+			real[i] = s.Sp()
+		}
+	}
+	o, res := guard(func() (any, error) {
+		switch fn {
+		case "ChangeZoomExt":
+			return integrate.ChangeExtendedSpatialIdsZoom(real, h, v)
+		case "ChangeZoomSp":
+			return integrate.ChangeSpatialIdsZoom(real, h)
+		case "HorizontalZoom":
+			return integrate.HorizontalZoom(top.H, top.X, top.Y, h), nil
+		}
+		return integrate.VerticalZoom(top.V, top.F, v), nil
+	})
+	e := absW.ev("Volume", map[string]any{"fn": fn, "ids": idsArr(ids), "top": top.Arr(), "h": h, "v": v})
+	e.O = o
+	e.R = map[string]any{"n": 0, "nd": 0}
+	if o == "ok" {
+		out := strs(res)
+		seen := make(map[string]struct{}, len(out))
+		for _, s := range out {
+			seen[s] = struct{}{}
+		}
+		e.R = map[string]any{"n": len(out), "nd": len(seen)}
+	} else {
+		e.Bad = "outcome " + o
+	}
+	t.Emit(e, true)
+}
+
+func driveVolume(t *Tracer, r Rng) {
+	// a voxel and one nested / repeated companion, refined to 2^20 .. 2^21 voxels
+	z := r.In(4, 12)
+	n := int64(1) << uint(z)
+	top := ID{H: z, X: r.In(0, n-1), Y: r.In(0, n-1), V: z, F: r.In(-n, n-1)}
+	comp := func(dh, dv int64) ID {
+		return ID{top.H + dh, top.X<<uint(dh) + r.In(0, 1<<uint(dh)-1), top.Y<<uint(dh) + r.In(0, 1<<uint(dh)-1), top.V + dv, top.F<<uint(dv) + r.In(0, 1<<uint(dv)-1)}
+	}
+	switch r.Intn(3) {
+	case 0:
+		evVolume(t, "ChangeZoomExt", []ID{top, comp(r.In(0, 2), r.In(0, 2))}, top, top.H+7, top.V+r.In(6, 7))
+	case 1:
+		evVolume(t, "ChangeZoomExt", []ID{comp(1, 1), top, top}, top, top.H+8, top.V+r.In(4, 5))
+	default:
+		c := comp(1, 1)
+		evVolume(t, "ChangeZoomSp", []ID{top, c}, top, top.H+7, top.V+7)
+	}
+	evVolume(t, "HorizontalZoom", nil, top, top.H+10, top.V)
+	evVolume(t, "VerticalZoom", nil, top, top.H, top.V+20)
+}
+
 func driveZoom(t *Tracer, r Rng, n int) {
+	if n >= 1000 {
+		driveVolume(t, r)
+	}
 	for i := 0; i < n; i++ {
 		if i%400 == 7 && i < 10000 { // a large refinement of one voxel (up to 4^8 or 2^14 descendants)
 			hD, vD := r.In(6, 20), r.In(6, 20)
